@@ -1,4 +1,5 @@
 import NflowsModel.Audit.Tool
 import NflowsModel.Properties.C02
+import NflowsModel.Properties.C02E
 
 #audit_namespace Properties.C02
